@@ -136,7 +136,7 @@ Definition check_case (c : rcase) : list N :=
 (* property C04 on the implementation's outputs only.
    codes: 1 number of responses (pre-responses aside) on the reply subject is not the expected 1 / 0
           2 the probe request sent afterwards was not answered normally
-          3 a well-formed request was never completed *)
+          3 a well-formed request that is due a response was never completed *)
 Definition expected_count (c : rcase) : option nat :=
   match rc_parts c with
   | Some (rt, rn, _) =>
@@ -151,8 +151,8 @@ Definition viol_case (c : rcase) : list N :=
    end) ++
   (if g_probe c then [] else [2]) ++
   (match expected_count c with
-   | Some _ => if g_done c then [] else [3]
-   | None => []
+   | Some (S _) => if g_done c then [] else [3]
+   | _ => []         (* whether a deliberately unanswered request was "completed" is not observable: correspondence (M3) only *)
    end).
 
 Fixpoint run_idx {A} (f : A -> list N) (i : N) (cs : list A) : list (N * N) :=
